@@ -15,7 +15,7 @@ use crate::{
     serde::ser::{self, Serialize},
     thread::{ActiveThread, Thread},
     types::{VmIndex, VmTag},
-    value::{Def, RecordDef, ValueRepr},
+    value::{ArrayDef, Def, RecordDef, ValueRepr},
 };
 
 /**
@@ -199,6 +199,16 @@ impl<'a, 't> Serializer<'a, 't> {
             tag: tag,
             elems: &context.stack[context.stack.len() - values..],
         })?;
+        context.stack.pop_many(values);
+        context.stack.push(Variants::from(value));
+        Ok(())
+    }
+
+    fn alloc_array(&mut self, values: VmIndex) -> Result<()> {
+        let mut context = self.context.context();
+        let value = context.gc.alloc(ArrayDef(
+            &context.stack[context.stack.len() - values..],
+        ))?;
         context.stack.pop_many(values);
         context.stack.push(Variants::from(value));
         Ok(())
@@ -452,8 +462,9 @@ impl<'s, 'a, 'vm> ser::SerializeSeq for RecordSerializer<'s, 'a, 'vm> {
         Ok(())
     }
 
+    // Sequences are gluon arrays (the same value that `Vec<T>: Pushable` creates)
     fn end(self) -> Result<Self::Ok> {
-        self.serializer.alloc(self.variant_index, self.values)
+        self.serializer.alloc_array(self.values)
     }
 }
 
